@@ -76,7 +76,7 @@ class C02(Check):
         self.stats = {}
 
     def budget(self, tier, escalated):
-        n = 700 if tier == 'quick' else 20000
+        n = 1200 if tier == "quick" else 60000
         return n * (3 if escalated and tier == 'quick' else 1)
 
     def nontrivial(self, sample):
